@@ -34,6 +34,10 @@ def worker(job):
     rng = random.Random(job['seed'])
     cases = [dagcase.gen_case(rng, max_tids=job['max_tids'], backend=job.get('backend')) for _ in range(job['n'])]
     cases = job.get('corpus', []) + cases
+    for _ in range(max(1, job['n'] // 25)):
+        c = dagcase.gen_ext_case(rng, max_tids=job['max_tids'], backend=job.get('backend'))
+        if c is not None:
+            cases.append(c)
     cases = [normalise(c) for c in cases]
     lines = [dagcase.encode(c) for c in cases]
     model = driver.run_lines(lines)
@@ -50,6 +54,12 @@ def worker(job):
             obs, recs = dagcase.run_real(c, wd)
             rec = recs[0]
             rep['evaluations'] += 1
+            if c.get('ext'):
+                # another writer acts during the run: outside the models (CacheStable); property monitor only
+                bump('external_writer_cases')
+                for v in dagmon.monitor_ext(c, rec):
+                    rep['violations'].append(dict(property='C03', what=v, case=c, line=line, real=obs))
+                continue
             if obs != m:
                 rep['disagreements'].append(dict(case=c, line=line, real=obs, model=m, diff=first_diff(obs, m)))
             nt = {}
